@@ -72,7 +72,7 @@ def G(id, tu, fn, props, ins=(), setup='', call=None, ret=None, pre=None, post=N
       replace=(), loops=False, split=None, solvers=('cadical',), timeout=300, flags=(),
       min_obl=1, must=('postcondition',), unwind=None, bounded=None, enforce=True,
       native=True, tier='quick', body=None, extra_replace=(), note='', nondet_static=False,
-      sweep=None, reach=True, defs=(), direct=False, fix=None, loopinv=None, reach_hint=''):
+      sweep=None, reach=True, defs=(), direct=False, fix=None, loopinv=None, reach_hint='', kind='contract', files=(), whitelist=()):
     """Register an obligation group.
     ins: list of (ctype, name) scalar harness inputs (named in_*).
     setup: C statements building the real argument values from the inputs.
@@ -87,7 +87,7 @@ def G(id, tu, fn, props, ins=(), setup='', call=None, ret=None, pre=None, post=N
                       solvers=list(solvers), timeout=timeout, flags=list(flags), min_obl=min_obl,
                       must=list(must), unwind=unwind, bounded=bounded, enforce=enforce, native=native,
                       tier=tier, body=body, note=note, nondet_static=nondet_static, sweep=sweep,
-                      reach=reach, defs=list(defs), direct=direct, fix=dict(fix or {}), loopinv=loopinv, reach_hint=reach_hint)
+                      reach=reach, defs=list(defs), direct=direct, fix=dict(fix or {}), loopinv=loopinv, reach_hint=reach_hint, kind=kind, files=list(files), whitelist=list(whitelist))
     ORDER.append(id)
 
 
@@ -241,6 +241,8 @@ def tu_text(tu, groups, known, native=False):
         L.append(t['extra_text'])
     if not native:
         for g in groups:
+            if g['kind'] != 'contract':
+                continue
             L.append(harness_text(g, known))
             if g['reach']:
                 L.append(harness_text(g, known, reach=True))
@@ -513,6 +515,8 @@ def run_group(ctx, g, obj):
     res = dict(id=gid, fn=g['fn'], status='undecided', results=[], solver=None, secs=0.0, reason='',
                bounded=g['bounded'], n_user=0, n_all=0, reach=None, log='')
     t_start = time.time()
+    if g['kind'] == 'undefined':
+        return run_undefined(ctx, g, res, t_start)
 
     def build(entry, noloops=False):
         a = os.path.join(ctx.work, '%s_%s.a.gb' % (entry, c))
@@ -731,6 +735,40 @@ def run_group(ctx, g, obj):
         res['reach'] = trace_inputs(reach[0]['trace'])
     res['status'] = 'ok'
     res['secs'] = time.time() - t_start
+    return res
+
+
+def run_undefined(ctx, g, res, t_start):
+    """supporting static fact: the set of external (undefined) functions of a set of real source files equals a committed whitelist"""
+    objs = []
+    with CPU_SEM:
+        for f in g['files']:
+            o = os.path.join(ctx.work, 'uf_%s_%s.o' % (cid(g['id']), cid(f)))
+            rc, out, _ = run(['goto-cc'] + TUS[g['tu']]['cflags'] + ['-c', os.path.join(REPO, f), '-o', o], timeout=300)
+            if rc != 0:
+                res['reason'] = 'goto-cc failed on %s: %s' % (f, out[-500:])
+                return res
+            objs.append(o)
+        gb = os.path.join(ctx.work, 'uf_%s.gb' % cid(g['id']))
+        rc, out, _ = run(['goto-cc'] + objs + ['-o', gb], timeout=300)
+        if rc != 0:
+            res['reason'] = 'link failed: ' + out[-500:]
+            return res
+        rc, out, _ = run(['goto-instrument', '--list-undefined-functions', gb], timeout=300)
+    names = sorted({l.strip() for l in out.splitlines() if re.match(r'^[A-Za-z_][A-Za-z0-9_]*$', l.strip()) and not l.startswith('__CPROVER')})
+    wl = set(g['whitelist'])
+    res['results'] = [dict(property='undefined_function.%s' % n, status='SUCCESS' if n in wl else 'FAILURE',
+                           description='external function %s called by %s is %s the committed whitelist' % (n, ', '.join(g['files']), 'in' if n in wl else 'NOT in'),
+                           line=None, file=None, inputs=None) for n in names]
+    res['n_user'] = res['n_all'] = len(names)
+    res['solver'] = 'goto-instrument --list-undefined-functions'
+    res['secs'] = res['solver_secs'] = time.time() - t_start
+    bad = [r for r in res['results'] if r['status'] == 'FAILURE']
+    if bad:
+        res['status'] = 'fail'
+        res['failed'] = bad
+    else:
+        res['status'] = 'ok'
     return res
 
 
